@@ -122,16 +122,15 @@ func (e *Enc) appendBuiltin(site ssa.Instruction, cc *ssa.CallCommon) Value {
 	res := SliceV{e.define(fmt.Sprintf("app%d.base", id), rBase), e.define(fmt.Sprintf("app%d.off", id), rOff), newLen, e.define(fmt.Sprintf("app%d.cap", id), rCap)}
 
 	n, isConst := constInt(tLen)
-	fams := e.elemFams(st.Elem())
 	if fromString {
 		isConst = false
 	}
 	// In the fresh array, the old elements are copies (stated on the current heap: the array is fresh,
 	// nothing could have observed it before).
-	for _, f := range fams {
-		hm := e.cur.get(f.name, f.sort)
-		e.assume(implies(grow, mk(SBool, "(forall ((qi! Int)) (! (=> (and (<= 0 qi!) (< qi! %s)) (= (select %s (eref %s qi!)) (select %s %s))) :pattern ((select %s (eref %s qi!))) :pattern ((select %s %s))))",
-			s.Len.S, hm.S, nb.S, hm.S, sliceElemRef(s.Base, s.Off, Term{"qi!", SInt}).S, hm.S, nb.S, hm.S, sliceElemRef(s.Base, s.Off, Term{"qi!", SInt}).S)), "append copies old elements into the fresh array")
+	paths := e.elemPaths(st.Elem())
+	for _, cp := range paths {
+		hm := e.cur.get(cp.fam.name, cp.fam.sort)
+		e.assume(implies(grow, e.pathCopyFact(hm, cp, s.Len, func(qi Term) Term { return eref(nb, qi) }, func(qi Term) Term { return sliceElemRef(s.Base, s.Off, qi) })), "append copies old elements into the fresh array")
 	}
 	if isConst && n.IsInt64() && n.Int64() <= 8 && shapeKindOf(st.Elem()) != kArrayOfComposite {
 		// copy the n appended elements one by one (strong updates)
@@ -144,18 +143,22 @@ func (e *Enc) appendBuiltin(site ssa.Instruction, cc *ssa.CallCommon) Value {
 		return res
 	}
 	// symbolic number of appended elements: new heap version with a quantified description
-	for _, f := range fams {
-		old := e.cur.get(f.name, f.sort)
-		nw := e.freshConst(f.name+"@app", f.sort)
-		var src string
+	for _, cp := range paths {
+		old := e.cur.get(cp.fam.name, cp.fam.sort)
+		nw := e.freshConst(cp.fam.name+"@app", cp.fam.sort)
+		lo := add(res.Off, s.Len)
+		var ax Term
 		if fromString {
-			src = fmt.Sprintf("(s.at %s (- (eref.idx r) (+ %s %s)))", strT.S, res.Off.S, s.Len.S)
+			ax = e.pathUpdateAxiom(nw, old, cp, res.Base, lo, add(res.Off, newLen), nil, func(i string) string {
+				return fmt.Sprintf("(s.at %s (- %s %s))", strT.S, i, lo.S)
+			})
 		} else {
-			src = fmt.Sprintf("(select %s (eref %s (+ %s (- (eref.idx r) (+ %s %s)))))", old.S, tBase.S, tOff.S, res.Off.S, s.Len.S)
+			ax = e.pathUpdateAxiom(nw, old, cp, res.Base, lo, add(res.Off, newLen), func(i string) string {
+				return fmt.Sprintf("(eref %s (+ %s (- %s %s)))", tBase.S, tOff.S, i, lo.S)
+			}, nil)
 		}
-		e.assume(mk(SBool, "(forall ((r Int)) (! (= (select %s r) (ite (and (= (eref.base r) %s) (= r (eref %s (eref.idx r))) (<= (+ %s %s) (eref.idx r)) (< (eref.idx r) (+ %s %s))) %s (select %s r))) :pattern ((select %s r))))",
-			nw.S, res.Base.S, res.Base.S, res.Off.S, s.Len.S, res.Off.S, newLen.S, src, old.S, nw.S), "append writes the new elements")
-		e.cur.set(f.name, nw)
+		e.assume(ax, "append writes the new elements")
+		e.cur.set(cp.fam.name, nw)
 	}
 	return res
 }
@@ -164,26 +167,25 @@ func (e *Enc) copyBuiltin(site ssa.Instruction, cc *ssa.CallCommon) Value {
 	dst := e.val(cc.Args[0]).(SliceV)
 	st := cc.Args[0].Type().Underlying().(*types.Slice)
 	var srcLen Term
-	var srcExpr func(idx string, old Term) string
+	var srcVal func(idx string) string
+	var srcRef func(idx string) string
 	if bt, ok := cc.Args[1].Type().Underlying().(*types.Basic); ok && bt.Info()&types.IsString != 0 {
 		s := e.sc(cc.Args[1])
 		srcLen = app(SInt, "s.len", s)
-		srcExpr = func(idx string, old Term) string { return fmt.Sprintf("(s.at %s %s)", s.S, idx) }
+		srcVal = func(idx string) string { return fmt.Sprintf("(s.at %s (- %s %s))", s.S, idx, dst.Off.S) }
 	} else {
 		src := e.val(cc.Args[1]).(SliceV)
 		srcLen = src.Len
-		srcExpr = func(idx string, old Term) string {
-			return fmt.Sprintf("(select %s (eref %s (+ %s %s)))", old.S, src.Base.S, src.Off.S, idx)
+		srcRef = func(idx string) string {
+			return fmt.Sprintf("(eref %s (+ %s (- %s %s)))", src.Base.S, src.Off.S, idx, dst.Off.S)
 		}
 	}
 	n := e.define(fmt.Sprintf("copy%d.n", e.nextID()), ite(le(dst.Len, srcLen), dst.Len, srcLen))
-	for _, f := range e.elemFams(st.Elem()) {
-		old := e.cur.get(f.name, f.sort)
-		nw := e.freshConst(f.name+"@copy", f.sort)
-		idx := fmt.Sprintf("(- (eref.idx r) %s)", dst.Off.S)
-		e.assume(mk(SBool, "(forall ((r Int)) (! (= (select %s r) (ite (and (= (eref.base r) %s) (= r (eref %s (eref.idx r))) (<= %s (eref.idx r)) (< (eref.idx r) (+ %s %s))) %s (select %s r))) :pattern ((select %s r))))",
-			nw.S, dst.Base.S, dst.Base.S, dst.Off.S, dst.Off.S, n.S, srcExpr(idx, old), old.S, nw.S), "copy writes n elements")
-		e.cur.set(f.name, nw)
+	for _, cp := range e.elemPaths(st.Elem()) {
+		old := e.cur.get(cp.fam.name, cp.fam.sort)
+		nw := e.freshConst(cp.fam.name+"@copy", cp.fam.sort)
+		e.assume(e.pathUpdateAxiom(nw, old, cp, dst.Base, dst.Off, add(dst.Off, n), srcRef, srcVal), "copy writes n elements")
+		e.cur.set(cp.fam.name, nw)
 	}
 	return Sc{n}
 }
